@@ -443,7 +443,7 @@ def sweep_cc14_values(rng, step=1, first_id=1):
     return out
 
 
-def sweep_pn_values(rng, kind, step=1, first_id=1, to=0):
+def sweep_pn_values(rng, kind, step=1, first_id=1, to=0, sweeps=True):
     """Every parameter number (with a seeded value) and every 14-bit value (with a seeded number)
     through the real encoder and a real scanner of the given kind (pn: LSB first; poll: both orders,
     followed by wait + poll)."""
@@ -457,7 +457,17 @@ def sweep_pn_values(rng, kind, step=1, first_id=1, to=0):
             ord_ = rng.choice(["msb", "lsb"])
             n = 4 if msg[4] == 1 else 3
             out.append({"op": "encpn", "id": first_id, "msg": msg, "ord": ord_, "gk": "rtp", "more": 1, "fac": "raw"})
-            out.append({"op": "tick", "id": first_id, "dt": to})
+            if to > 0:
+                # a poll before the timeout: must return nothing and change nothing, whatever was fed
+                if to > 1 and rng.random() < 0.5:
+                    out.append({"op": "tick", "id": first_id, "dt": to - 1})
+                    out.append({"op": "poll", "id": first_id, "ch": msg[0], "early": True})
+                    out.append({"op": "tick", "id": first_id, "dt": 1})
+                else:
+                    out.append({"op": "poll", "id": first_id, "ch": msg[0], "early": True})
+                    out.append({"op": "tick", "id": first_id, "dt": to})
+            else:
+                out.append({"op": "tick", "id": first_id, "dt": to})
             out.append({"op": "poll", "id": first_id, "ch": msg[0],
                         "grp": {"k": "rtp", "i": n + 1, "n": n + 1, "msg": msg, "ord": ord_}})
 
@@ -470,6 +480,8 @@ def sweep_pn_values(rng, kind, step=1, first_id=1, to=0):
                     emit([c2, num, rng.choice([0, 127, 128, 5418, 16383, rng.randrange(16384)]), reg, 1, 0])
                 else:
                     emit([c2, num, rng.choice([0, 42, 127, rng.randrange(128)]), reg, 0, form - 2])
+    if not sweeps:
+        return out
     for num in range(rng.randrange(step), 16384, step):
         reg = rng.randrange(2)
         if rng.random() < 0.5:
